@@ -300,6 +300,7 @@ pub fn run() -> Report {
     }
     // slice law (differential): csvdump/opreturn of a range equals the slice of the whole-chain output
     slice_law(&mut rep, &root, max_t.min(4));
+    start_above_tip(&mut rep, &root);
     interrupted_runs(&mut rep, &root, "C02", &["csvdump", "opreturn", "unspentcsvdump", "balances"]);
     match long_index.join() {
         Ok(r) => rep.merge(r),
@@ -347,6 +348,37 @@ fn slice_law(rep: &mut Report, root: &std::path::Path, t: u64) {
         }
     }
     rep.count("slice-law-pairs", (t + 1) * (t + 2) / 2);
+}
+
+/// --start above the tip (an incremental dump asked for "everything after the last block I have" when no new block has
+/// arrived): the set of heights s..min(e,T) is empty. Whatever the run does about names, log lines and its exit status (the
+/// statement is silent there), no block may be delivered: no row in any file of the dump, no opreturn line.
+fn start_above_tip(rep: &mut Report, root: &std::path::Path) {
+    let btc = coin("bitcoin");
+    for t in [0u64, 3, 5] {
+        let chain = dependent_chain(btc, 0, t as usize + 1);
+        let world = World::simple(btc, &chain.blocks, 0);
+        let wk = Worker::new(root, 930);
+        if let Err(m) = wk.materialise(&world) {
+            return rep.machinery(m);
+        }
+        for (s, e) in [(t + 1, None), (t + 3, None), (t + 2, Some(t + 9)), (t + 1, Some(t + 1))] {
+            for cb in ["csvdump", "opreturn", "unspentcsvdump"] {
+                let spec = RunSpec::new("bitcoin", cb).range(Some(s), e);
+                let r = wk.run(&spec);
+                rep.states += 1;
+                rep.transitions += 1;
+                rep.nontrivial.insert(h8(format!("above-tip{}{}{:?}{}", t, s, e, cb).as_bytes()));
+                rep.count("start-above-the-tip", 1);
+                let rows: usize = r.files.iter().filter(|(n, _)| n.ends_with(".csv")).map(|(n, v)| String::from_utf8_lossy(v).lines().filter(|l| !l.is_empty()).count().saturating_sub(if n.starts_with("unspent") { 1 } else { 0 })).sum();
+                let lines = crate::oracle::parse_opreturn(&r).map(|l| l.len()).unwrap_or(0);
+                if rows > 0 || (cb == "opreturn" && lines > 0) {
+                    rep.disagree("block-delivered-although-start-is-above-the-tip", format!("tip {} --start {} --end {:?} {}: {} rows in final-named files, {} opreturn lines", t, s, e, cb, rows, lines), replay_case(&world, &spec, json!({"must": "deliver no block"}), &r, &wk.dir));
+                }
+            }
+        }
+        wk.cleanup();
+    }
 }
 
 /// Asynchronous events: a signal (SIGINT / SIGTERM / SIGHUP / SIGUSR1) is raised immediately before EVERY read of a blk file, i.e.
